@@ -348,15 +348,17 @@ def edit_constant(parameterized):
     for pname, pobj in (kls_params | inst_params).items():
         if pobj.constant:
             pobj.constant = False
-            updated.append(pname)
+            updated.append((pname, pobj))
     try:
         yield
     finally:
-        for pname in updated:
+        for pname, pobj in updated:
+            # Only the Parameter object that was made editable is reset
+            # (the class-level one is left alone when an instance-level
+            # copy shadows it)
+            pobj.constant = True
             # Some operations trigger a parameter instantiation (copy),
-            # we ensure both the class and instance parameters are reset.
-            if pname in kls_params:
-                type(parameterized).param[pname].constant=True
+            # we ensure the new instance parameter is reset too.
             if pname in inst_params:
                 parameterized.param[pname].constant = True
 
